@@ -9,7 +9,8 @@ type Channel interface {
 	SendContent(method amqp.Method, message *amqp.Message) *amqp.Error
 	SendMethod(method amqp.Method)
 	NextDeliveryTag() uint64
-	AddUnackedMessage(dTag uint64, cTag string, queue string, message *amqp.Message)
+	// origin is the queue (a *queue.Queue) the message is delivered from
+	AddUnackedMessage(dTag uint64, cTag string, queue string, origin interface{}, message *amqp.Message)
 }
 
 // Consumer represents base consumer public interface
